@@ -6,6 +6,7 @@ constructed as pipefunc itself does: cls(folder, shape, internal_shape, shape_ma
 """
 from __future__ import annotations
 
+import gc
 import hashlib
 import itertools
 import os
@@ -432,15 +433,19 @@ def run_history(v, geom, ops, backends, scratch, hid, drop_old=True, plain_ctor=
                     before = None
                 try:
                     arr.persist()
-                    old = arr
-                    arr = ctor()
                     if drop_old:
-                        del old
+                        arr = None  # the old instance is gone before the folder is reopened
+                        if name in SLOW:
+                            gc.collect()  # ... really gone, together with its manager process
                     else:
-                        keep.append(old)
+                        keep.append(arr)
+                    arr = ctor()
                 except Exception as e:  # noqa: BLE001
-                    v.bad(exc_sig(e, "reopen") + tail(), f"persist()+constructor on the same folder raised: {exc_msg(e)}",
-                          **wit(j))
+                    if name in SLOW:  # exception type depends on how far the old manager's shutdown got
+                        sig = f"reopen:unusable-after-reopen/{name}" + ("/old-instance-dropped" if drop_old else "/old-instance-kept")
+                    else:
+                        sig = exc_sig(e, "reopen") + tail()
+                    v.bad(sig, f"persist()+constructor on the same folder raised: {exc_msg(e)} [{exc_sig(e, 'at')}]", **wit(j))
                     break
                 v.count(f"cmp_reopen_{name}")
                 observed[j] += 1
@@ -543,7 +548,7 @@ def run_history(v, geom, ops, backends, scratch, hid, drop_old=True, plain_ctor=
                       f"{kind} {op[1:]} returned {short(got)}; model expects {short(exp[1])}",
                       **wit(j, got=short(got, 800), expected=short(exp[1], 800)))
                 nbad += 1
-        del arr
+        arr = None
         keep.clear()
     for n_obs in observed:
         if n_obs >= 2:
@@ -594,7 +599,17 @@ def classes_of(v, geom):
     v.classes.add(f"internal-rank{len(I)}")
 
 
+_FROZEN = False
+
+
 def run_case(desc):
+    global _FROZEN
+    if not _FROZEN:
+        # move the (large) import-time heap out of the collector's way: the explicit gc.collect() that makes a
+        # dropped shared-memory instance really go away then costs ~1 ms instead of ~60 ms
+        gc.collect()
+        gc.freeze()
+        _FROZEN = True
     v = V()
     keys = []
     sample = None
